@@ -128,7 +128,9 @@ def make_terminal(ec, spec, index, classes=None):
                 coe = spec.get("coe_off", 0)
                 sns[v["name"]] = ProcessDesc(idx, 1)
                 if coe:
-                    pdos[idx, 1] = (sm, 0, v["size"])      # channel 1's
+                    # channel 1's: elsewhere, and bits at another bit number
+                    pdos[idx, 1] = (sm, 0, (v["size"] + 1) % 8 if isinstance(
+                        v["size"], int) else v["size"])
                 pdos[idx + coe, 1] = (sm, p, v["size"])
             elif v["via"] == "override":
                 # the mapping says v["mapped"], the descriptor knows better
@@ -144,6 +146,8 @@ def make_terminal(ec, spec, index, classes=None):
     if sns:
         Ch = type("Ch", (Struct,), sns)
         ns["ch"] = Ch(soff[0], soff[1], spec.get("coe_off", 0))
+        if spec.get("coe_off", 0):
+            ns["ch0"] = Ch(0, 0, 0)      # the first channel of the terminal
     key = repr((spec["in"], spec["out"], soff, spec.get("coe_off", 0)))
     if classes is not None and key in classes:
         cls = classes[key]
@@ -162,6 +166,11 @@ def make_terminal(ec, spec, index, classes=None):
     t.pdo_out_off = spec["out_off"]
     t.posmap = posmap
     t.in_struct = set(sns)
+    if spec.get("coe_off", 0):
+        # somebody looked at the first channel's variables before
+        for name, d in sns.items():
+            if isinstance(d, ProcessDesc):
+                getattr(t.ch0, name)
     return t
 
 
